@@ -10,7 +10,8 @@ switching that mechanism (and nothing else than listed mechanisms) on in the ref
 import random
 import time
 
-from .. import build, impl, report, sexp, t2, t2gen, bashrun
+from .. import build, impl, model, report, sexp, t2, t2gen, bashrun
+from .c12 import strip_tables
 from ..c17ref import Ref, explain, QUIRKS
 
 CLASS = {
@@ -59,14 +60,66 @@ def witnesses():
               [(['p:q'], ''), (['p:xy'], ''), ([], 'p:q')]))
     W.append(('cmd p:{{{ %s }}} next;\n' % P(1, ['a\tdescription', 'b c\td']), {1: ['a\tdescription', 'b c\td']},
               [([], 'p:'), (['p:a'], ''), ([], '')]))
-    W.append(('cmd --k=(v || {{{ %s }}});\n' % P(1, ['--k=vx', 'w']), {1: ['--k=vx', 'w']},
-              [([], '--k=v'), ([], '--k='), ([], '--k=w')]))
+    W.append(('cmd --k=({{{ %s }}} || wy);\n' % P(1, ['--k=wx', 'zz']), {1: ['--k=wx', 'zz']},
+              [([], '--k=w'), ([], '--k='), ([], '--k=z')]))
     return W
+
+
+WITNESS_GRAMMARS = {'w1': 'cmd ({{{ c1 }}} x | {{{ c2 }}} y);\n', 'w2': 'cmd p:({{{ c1 }}})... next;\n'}
+
+
+def witness_tables_tie(exe, res):
+    """the tables used by the refutation theorems of Props/C17.v are what the pipeline emits for their grammars"""
+    names = sorted(WITNESS_GRAMMARS)
+    dumps = impl.dump(exe, [WITNESS_GRAMMARS[n].encode() for n in names], ['tables'], ['bash'])
+    outs = model.run(['c17witness %s' % n for n in names])
+    ok = 0
+    for n, d, o in zip(names, dumps, outs):
+        rust = d['bash'].get('TABLES')
+        if rust is not None and strip_tables(sexp.parse(rust)) == strip_tables(sexp.parse(o)):
+            ok += 1
+        else:
+            res.violations.append(report.Violation(
+                'tie broken: Model/C17Witness.v %s is not what the pipeline emits for %s' % (n, WITNESS_GRAMMARS[n].strip()),
+                dict(kind='tie-witness-tables', rust=rust, model=o), found_input=False))
+    res.extra['witness_tables_agree'] = ok
+
+
+def coq_spec_tie(case, ref, res, counters):
+    """Spec/Invocations.v (extracted) against the Python reference without quirks, on grammars without within-word
+    expressions: the two readings of the property must coincide (rc, COMPREPLY, log)."""
+    if ref.subs or not case.queries:
+        return
+    wb = t2.DEFAULT_WORDBREAKS if case.wordbreaks is None else case.wordbreaks
+    outs = '(outputs %s)' % ' '.join('(%d %s)' % (cid, sexp.quote(t)) for cid, t in sorted(case.model_outputs().items()))
+    qs = ' '.join('(q %s 0 %s (words %s) %s)' % (sexp.quote(wb), outs, ' '.join(sexp.quote(w) for w in ws), sexp.quote(p))
+                  for ws, p in case.queries)
+    out = model.run(['specrun %d %s (queries %s)' % (case.start, case.tables, qs)], shard=1)[0]
+    try:
+        sx = sexp.parse(out)
+    except Exception:
+        sx = None
+    if not isinstance(sx, list) or (sx and sx[0] == 'drivererror'):
+        res.violations.append(report.Violation('extracted specification failed', dict(kind='spec-driver', output=out[:500]),
+                                               found_input=False))
+        return
+    for (ws, p), m in zip(case.queries, sx):
+        if m[0] != 'ok':
+            continue
+        coq = (int(m[1]), [str(x) for x in m[2][1:]], [(int(x[0]), str(x[1]), str(x[2])) for x in m[3][1:]])
+        py = ref.run(ws, p)
+        counters['spec_compared'] = counters.get('spec_compared', 0) + 1
+        if py in ('hang', 'unsupported') or (py[0], py[1], py[2]) != coq:
+            res.violations.append(report.Violation(
+                'the two executable readings of C17 disagree (Spec/Invocations.v vs lib/vf/c17ref.py)',
+                dict(kind='spec-vs-spec', words=ws, prefix=p, coq=coq, python=py), found_input=False))
 
 
 def run(ctx, res):
     with build.Lock():
         exe = build.harness()
+    witness_tables_tie(exe, res)
+    counters = {}
     rng = ctx['rng']
     budget = 120 if ctx['tier'] == 'quick' else 1500
     ngr = 60 if ctx['tier'] == 'quick' else 1500
@@ -120,6 +173,7 @@ def run(ctx, res):
             ref = Ref(sexp.parse(c.tables), sexp.parse(st['MIN']) if 'MIN' in st else None, c.model_outputs(),
                       t2.DEFAULT_WORDBREAKS if wb is None else wb, start=c.start)
             inv = {k: cid for cid, k in c.cid_to_probe.items()}
+            coq_spec_tie(c, ref, res, counters)
             for q, r in zip(c.queries, c.results):
                 res.evaluations += 1
                 replay = dict(grammar=text, words=q[0], prefix=q[1], wordbreaks=wb, probes={str(k): v for k, v in probes.items()},
@@ -169,5 +223,6 @@ def run(ctx, res):
     res.extra['grammars_generated'] = len(items)
     res.extra['grammars_rejected_by_complgen'] = rejected
     res.extra['deviations_by_mechanism'] = attributed
+    res.extra['coq_spec_vs_python_reference_compared'] = counters.get('spec_compared', 0)
     if done < len(items):
         res.notes.append('time budget reached after %d of %d grammars (loaded machine)' % (done, len(items)))
